@@ -33,6 +33,8 @@ def endings():
         E.append(('stream-%s-cancel1' % pub, dict(kind='stream', down=2, pub=pub, cancel_after=1, credit='one', ending='flag')))
     E.append(('stream-error', dict(kind='stream', down=1, pub='manual', ending='error')))
     E.append(('stream-raise', dict(kind='stream', down=1, pub='raise')))
+    E.append(('stream-generator-factory-raises', dict(kind='stream', down=1, pub='genfactory')))
+    E.append(('stream-async-generator-factory-raises', dict(kind='stream', down=1, pub='agenfactory')))
     # channel
     for ending in ('complete', 'flag', 'error'):
         for up_ending in ('complete', 'flag', 'error'):
